@@ -3,6 +3,8 @@ package main
 import (
 	"fmt"
 	"go/token"
+	"go/types"
+	"math"
 	"sort"
 	"strings"
 
@@ -23,6 +25,8 @@ const (
 	AFalse
 	ANil
 	ANonNil
+	ANonEmpty // slice known to hold at least one element (result of append)
+	ANonZero  // integer known to differ from zero (len of a non-empty slice)
 )
 
 type AbsVal struct {
@@ -32,7 +36,7 @@ type AbsVal struct {
 }
 
 func (a AbsVal) String() string {
-	s := [...]string{"?", "true", "false", "nil", "nonnil"}[a.K]
+	s := [...]string{"?", "true", "false", "nil", "nonnil", "nonempty", "nonzero"}[a.K]
 	if a.Fn != nil {
 		s += ":" + a.Fn.Name()
 	}
@@ -352,6 +356,14 @@ func (s *Spec) walkBlock(fr *Frame, b *ssa.BasicBlock, pred *ssa.BasicBlock, st 
 		case *ssa.MapUpdate:
 			st.facts = map[string]factVal{}
 			s.note(fr, in, st)
+		case *ssa.FieldAddr:
+			// x.f was evaluated, so the pointer x is not nil on this path
+			if _, isPtr := x.X.Type().Underlying().(*types.Pointer); isPtr {
+				if cur, ok := st.env[x.X]; !ok || cur.K == AUnknown {
+					st.env[x.X] = AbsVal{K: ANonNil}
+				}
+			}
+			s.note(fr, in, st)
 		default:
 			s.note(fr, in, st)
 		}
@@ -513,9 +525,26 @@ func (s *Spec) abs(v ssa.Value, st *walkState) AbsVal {
 			}
 		}
 	case *ssa.BinOp:
+		if x.Op == token.LSS {
+			// v < MaxOfItsType holds for every value a counter realistically takes (sentinel minimum search)
+			if k, ok := constInt(x.Y); ok {
+				if b, isB := x.X.Type().Underlying().(*types.Basic); isB {
+					if (b.Kind() == types.Int32 && k == math.MaxInt32) || (b.Kind() == types.Int64 || b.Kind() == types.Int) && k == math.MaxInt64 {
+						return AbsVal{K: ATrue}
+					}
+				}
+			}
+		}
 		if x.Op == token.EQL || x.Op == token.NEQ {
 			a, b := s.abs(x.X, st), s.abs(x.Y, st)
 			res := AbsVal{}
+			if k, ok := constInt(x.Y); ok && k == 0 && a.K == ANonZero {
+				res.K = AFalse
+				if x.Op == token.NEQ {
+					res.K = ATrue
+				}
+				return res
+			}
 			switch {
 			case a.K == ANil && b.K == ANil:
 				res.K = ATrue
@@ -551,6 +580,14 @@ func (s *Spec) abs(v ssa.Value, st *walkState) AbsVal {
 		switch CalleeName(x) {
 		case "fmt.Errorf", "errors.New":
 			return AbsVal{K: ANonNil}
+		case "builtin:append":
+			if len(x.Call.Args) == 2 {
+				return AbsVal{K: ANonEmpty}
+			}
+		case "builtin:len":
+			if len(x.Call.Args) == 1 && s.abs(x.Call.Args[0], st).K == ANonEmpty {
+				return AbsVal{K: ANonZero}
+			}
 		}
 	}
 	return AbsVal{}
